@@ -84,40 +84,74 @@ def run(c: Check):
                      "least one mutated field; distinct by (field, class, concrete value) set")
     c.sample([ev[0]] + [e for e in ev if e["accepted"] and e["mut"]][:2] + [e for e in ev if not e["accepted"]][:2])
 
-    # Report every failing single mutation; fold pairs that only repeat a
-    # failing single (same kind, same field and class).
-    single_bad = set()
-    todo = []
+    # One violation per (kind, field) for single-field configurations, listing
+    # the failing classes with their concrete values; multi-field configurations
+    # that only repeat a failing single (same kind, field and class) are folded.
+    per_field = {}      # (kind, field) -> {class: (event, text)}
+    single_bad = set()  # (kind, field, class)
+    multi = []
     for t in bad:
         e = ev[int(t[0]) - 1]
-        todo.append((len(e["mut"]), e, parse_reasons(t[1])))
-    todo.sort(key=lambda x: (x[0], x[1]["id"]))
+        reasons = parse_reasons(t[1])
+        kinds = {k for k, _ in reasons}
+        if "unsafe" in kinds:
+            kind = "accepted_unsafe"
+        elif "forbidden" in kinds:
+            kind = "accepted_forbidden"
+        elif "crash" in kinds:
+            kind = "crash"
+        else:
+            kind = "rejected_unnamed"
+        constraints = sorted(d for k, d in reasons if k == "forbidden")
+        if len(e["mut"]) == 1:
+            m = e["mut"][0]
+            single_bad.add((kind, m["f"], m["c"]))
+            if kind == "accepted_unsafe":
+                single_bad.add(("accepted_forbidden", m["f"], m["c"]))
+            per_field.setdefault((kind, m["f"]), {}).setdefault(m["c"], (e, constraints))
+        else:
+            multi.append((kind, e, constraints))
+    for (kind, f), cls in sorted(per_field.items()):
+        parts = []
+        for cl in sorted(cls):
+            e, constraints = cls[cl]
+            m = e["mut"][0]
+            val = "line removed" if cl == "missing" else m["v"]
+            if kind == "accepted_unsafe":
+                parts.append("%s (%s) -> %s" % (cl, val, e["unsafe"][0][:160]))
+            elif kind == "accepted_forbidden":
+                parts.append("%s (%s)" % (cl, val))
+            else:
+                parts.append("%s (%s) -> %s: %s" % (cl, val, e["stage"], e["err"][:120]))
+        head = {"accepted_unsafe": "validation accepts values of %s with which request handling fails: ",
+                "accepted_forbidden": "validation accepts values of %s that the documentation forbids (no failure "
+                                      "observed in the exercise): ",
+                "crash": "validation crashes for %s: ",
+                "rejected_unnamed": "rejection does not name the offending property %s: "}[kind] % f
+        c.violation({"kind": kind, "field": f, "classes": ",".join(sorted(cls))},
+                    "C20 " + head + "; ".join(parts), [cls[cl][0] for cl in sorted(cls)])
     folded = 0
-    for nmut, e, reasons in todo:
-        for kind, detail in reasons:
-            if kind == "forbidden":
-                culprits = [m for m in e["mut"] if detail == m["f"] or (detail.startswith("X:"))]
-            else:
-                culprits = list(e["mut"])
-            keys = [(kind, m["f"], m["c"]) for m in culprits]
-            if nmut == 1:
-                single_bad.update(keys)
-            elif any(k in single_bad for k in keys):
-                folded += 1
-                continue
-            sig = {"kind": kind, "fields": ",".join(sorted("%s=%s" % (m["f"], m["c"]) for m in culprits)),
-                   "constraint": detail}
-            if kind == "unsafe":
-                desc = "accepted configuration fails: %s -> %s" % (mut_str(e), "; ".join(e["unsafe"])[:400])
-            elif kind == "forbidden":
-                desc = ("validation accepts a value the documentation forbids (%s): %s (exercise: %s)" % (
-                    detail, mut_str(e), "; ".join(e["unsafe"])[:200] or "no failure observed"))
-            elif kind == "unnamed":
-                desc = "rejected without naming the offending property: %s -> stage %s: %s" % (
-                    mut_str(e), e["stage"], e["err"][:300])
-            else:
-                desc = "validation crashed: %s -> %s" % (mut_str(e), e["err"][:300])
-            c.violation(sig, "C20 " + desc, e)
+    reported = [frozenset([k]) for k in single_bad]      # sets of (kind, field, class)
+    multi.sort(key=lambda x: (len(x[1]["mut"]), x[1]["id"]))
+    for kind, e, constraints in multi:
+        keys = frozenset((kind, m["f"], m["c"]) for m in e["mut"])
+        if any(rep < keys or rep == keys for rep in reported):
+            folded += 1
+            continue
+        reported.append(keys)
+        fields = ",".join(sorted("%s=%s" % (m["f"], m["c"]) for m in e["mut"]))
+        if kind == "accepted_unsafe":
+            reported.append(frozenset(("accepted_forbidden", m["f"], m["c"]) for m in e["mut"]))
+            desc = "accepted configuration fails: %s -> %s" % (mut_str(e), "; ".join(e["unsafe"])[:300])
+        elif kind == "accepted_forbidden":
+            desc = "validation accepts a combination the documentation forbids (%s): %s" % (
+                ",".join(constraints), mut_str(e))
+        elif kind == "crash":
+            desc = "validation crashed: %s -> %s" % (mut_str(e), e["err"][:300])
+        else:
+            desc = "rejected without naming an offending property: %s -> %s: %s" % (
+                mut_str(e), e["stage"], e["err"][:300])
+        c.violation({"kind": kind, "fields": fields}, "C20 " + desc, e)
     if folded:
         c.notes.append("%d multi-field configurations only repeat a reported single-field failure" % folded)
     c.assumptions += ["the value classes and their concretisations (harness c20Concrete) are representative; 'huge' is "
